@@ -65,6 +65,18 @@ DOUBLE = ["ab", "ba", "cc", "aB", "Ab"]
 HOSTILE_NAMES = ["r", "R", "rec", "x1", "s0", "gen", "t", "T"]
 
 
+MIXEDLEN = ["a", "bc", "ab", "c", "b"]     # not uniquely decodable: a.bc = ab.c
+INTLABELS = [0, 1, 2, 3]                     # labels need not be strings for the views (0 is falsy)
+
+
+def all_str(labs):
+    return all(isinstance(l, str) for l in labs)
+
+
+def uniform(labs):
+    return all_str(labs) and len({len(l) for l in labs}) <= 1
+
+
 def vkey(v):
     return (type(v).__name__, v)
 
@@ -79,7 +91,7 @@ def tup(e):
 
 class Handle:
     __slots__ = ("id", "real", "V", "E", "S", "origin", "parent", "group", "big", "exact_model",
-                 "rebound_starts", "slist")
+                 "rebound_starts", "slist", "lenient")
 
     def __init__(self, hid, real, V, E, S, origin, parent=None, group=None):
         self.id = hid
@@ -92,6 +104,7 @@ class Handle:
         self.group = group        # same-source / same-file group tag
         self.rebound_starts = False
         self.slist = hid          # identity token of its start_vertices list object
+        self.lenient = False      # the caller asked for an edge to be listed twice (ignore_redundant=False)
         self.big = len(self.V) > 12 or len(self.E) > 40
 
     def adj(self):
@@ -103,7 +116,7 @@ class Handle:
         return a
 
     def labels(self):
-        return sorted({l for (_, _, l) in self.E})
+        return sorted({l for (_, _, l) in self.E}, key=lambda l: (type(l).__name__, l))
 
     def det_ok(self, t, l, h):
         for (t2, h2, l2) in self.E:
@@ -157,7 +170,7 @@ class Engine:
             "steps": rng.choice([6, 10, 16, 25, 40, 60] if tier == "thorough" else [6, 10, 16, 25, 40]),
             "vkind": rng.choice(["int", "int", "str"]),
             "nverts": rng.randint(2, 10 if tier == "thorough" else 8),
-            "alpha": rng.choice(["single", "single", "single", "double"]),
+            "alpha": rng.choice(["single", "single", "single", "double", "mixedlen"]),
             "nlabels": rng.randint(1, 5),
             "max_handles": rng.randint(2, 6),
             "callers": rng.randint(2, 4),
@@ -169,6 +182,10 @@ class Engine:
             "builtin_rate": rng.choice([0.0, 0.1, 0.3]),
             "word_as": rng.choice(["str", "tuple"]),
         }
+        if not c10 and not cfg["i3"] and rng.random() < 0.12:
+            cfg["alpha"] = "int"        # the views do not care what a label is (C09 only: enumeration
+            cfg["nlabels"] = min(cfg["nlabels"], 4)   # concatenates labels, so it needs strings)
+        cfg["redundant_adds"] = c10 and rng.random() < 0.2
         if cfg["faulty"]:
             kinds = ["open_error", "read_error", "truncated", "bitflip"]
             k = rng.randint(1, 4)
@@ -225,7 +242,8 @@ class Engine:
         return ["p", "q", "s", "u", "v", "w", "x", "y", "z", "t"][:cfg["nverts"]]
 
     def alphabet(self, cfg):
-        return (SINGLE if cfg["alpha"] == "single" else DOUBLE)[:cfg["nlabels"]]
+        pool = {"single": SINGLE, "double": DOUBLE, "mixedlen": MIXEDLEN, "int": INTLABELS}[cfg["alpha"]]
+        return pool[:cfg["nlabels"]]
 
     def state_hash(self, world):
         parts = []
@@ -256,8 +274,11 @@ class Engine:
                 world.sweep = st = {"target": ["builtin", name], "size": size}
             else:
                 if not world.files:
-                    return {"op": "write_file", "file": "sweep.wa", "table": self._gen_table(rng, cfg),
-                            "layout": self._gen_layout(rng), "caller": 0}
+                    t_ = self._gen_table(rng, cfg)
+                    l_ = self._gen_layout(rng)
+                    if any(x[:1].isdigit() for x in t_["names"]):
+                        l_["quote_names"] = True
+                    return {"op": "write_file", "file": "sweep.wa", "table": t_, "layout": l_, "caller": 0}
                 fn = sorted(world.files)[0]
                 world.sweep = st = {"target": ["file", fn], "size": world.files[fn][1]}
             st["kind"] = rng.choice(["read_error", "read_error", "truncated", "bitflip"])
@@ -399,6 +420,8 @@ class Engine:
         pool = rng.choice([["a", "A", "b", "B", "c", "C"], ["a", "b", "c", "d", "e", "f"],
                            HOSTILE_NAMES, ["s0", "s1", "s2", "s3", "s4", "s5"]])
         names = rng.sample(pool, min(nn, len(pool)))
+        if cfg.get("table_pool") != "letters" and rng.random() < 0.1:
+            names = [str(i) for i in range(len(names))]     # numeric-looking names: only valid when quoted
         n = rng.randint(1, 8)
         dens = rng.choice([0.2, 0.5, 0.8, 1.0])
         trans = [[(rng.randint(1, n) if rng.random() < dens else 0) for _ in names]
@@ -432,6 +455,7 @@ class Engine:
             "row_break": rng.random() < 0.7,
             "row_pad": rng.random() < 0.3,
             "row_interval": rng.random() < 0.6,
+            "quote_names": rng.random() < 0.2,
             "field_order": order,
         }
 
@@ -481,6 +505,8 @@ class Engine:
                     "plan": self._gen_plan(rng, cfg, size)}
         table = self._gen_table(rng, cfg)
         layout = self._gen_layout(rng)
+        if any(x[:1].isdigit() for x in table["names"]):
+            layout["quote_names"] = True
         fn = "f%d.wa" % (len(world.files) + 1 + world.steps_done * 10)
         if world.files and rng.random() < 0.25:
             fn = rng.choice(sorted(world.files))       # the caller overwrites a file it wrote earlier
@@ -500,12 +526,16 @@ class Engine:
             return {"op": "add_vertices", "h": h.id, "vs": vs}
         if r < 0.50:
             pool = Vl + U
-            labs = sorted(set(A) | set(h.labels()))
+            labs = sorted(set(A) | set(h.labels()), key=vkey)
             for _ in range(8):
                 t, hd, l = rng.choice(pool), rng.choice(pool), rng.choice(labs)
                 if rng.random() < 0.3 and h.E:      # bias: parallel edge on an existing pair
                     e = rng.choice(sorted(h.E, key=ekey))
                     t, hd = e[0], e[1]
+                if cfg.get("redundant_adds") and h.E and rng.random() < 0.3:
+                    e = rng.choice(sorted(h.E, key=ekey))
+                    return {"op": "add_edge", "h": h.id, "e": [e[0], e[1], e[2]], "ignore_redundant": False,
+                            "redundant": True}
                 if h.det_ok(t, l, hd):
                     op = {"op": "add_edge", "h": h.id, "e": [t, hd, l]}
                     if (t, hd, l) not in h.E and rng.random() < 0.2:
@@ -528,7 +558,7 @@ class Engine:
             return None
         if r < 0.66:
             pool = Vl + U
-            labs = sorted(set(A) | set(h.labels()))
+            labs = sorted(set(A) | set(h.labels()), key=vkey)
             t, hd = rng.choice(pool), rng.choice(pool)
             if rng.random() < 0.4 and h.E:
                 e = rng.choice(sorted(h.E, key=ekey))
@@ -571,6 +601,12 @@ class Engine:
         labs = h.labels()
         if not labs:
             return None
+        if not all_str(labs):
+            pool = SINGLE + ["C", "d", "D"]
+            if len(pool) < len(labs):
+                return None
+            targets = rng.sample(pool, len(labs))
+            return [[l, t] for l, t in zip(labs, targets)]
         width = len(labs[0]) if len({len(l) for l in labs}) == 1 else 1
         pool = [x for x in (SINGLE + ["C", "d", "D"] if width == 1 else DOUBLE + ["dd", "Dd"])]
         if len(pool) < len(labs) or any(len(l) != width for l in labs):
@@ -604,7 +640,7 @@ class Engine:
                     "root": None if use_default else root, "ties": rng.random() < 0.6}
         if h.S and all(s in h.V for s in h.S):
             labs = h.labels()
-            if labs and len({len(l) for l in labs}) != 1:
+            if labs and not uniform(labs):
                 return None
             deg = max([0] + [sum(1 for e in h.E if e[0] == v) for v in h.V])
             ks = [k for k in (1, 2, 3, 4) if deg ** k <= 64 and (not labs or len(labs[0]) * k <= 8)]
@@ -622,6 +658,8 @@ class Engine:
         Vl = sorted(h.V, key=vkey)
         labs = h.labels() or self.alphabet(world.cfg)
         kind = rng.choice(QUERY)
+        if not all_str(labs) and kind in ("q_prefix", "q_enum", "q_fixed"):
+            return None
         op = {"op": kind, "h": h.id}
         if kind in ("q_has_edge", "q_edge_label", "q_edge_labels"):
             if not Vl:
@@ -820,7 +858,7 @@ class Engine:
             if op["how"] == "del":
                 if not d[v]:
                     return "skipped:empty"
-                d[v].pop(sorted(d[v])[0])
+                d[v].pop(sorted(d[v], key=vkey)[0])
             else:
                 d[v][l] = w
         else:
@@ -1049,6 +1087,15 @@ class Engine:
                 return "skipped:nondeterministic"
             trial.add((t2, hd2, l2))
             edges.append((t2, hd2, l2))
+        if op.get("redundant"):
+            # re-adding an existing edge with ignore_redundant=False: the caller asks for the edge to be
+            # listed again in the out/in views; the language must not change (C10 runs only)
+            if (t, hd, l) not in h.E or world.prop != "C10":
+                return "skipped:redundant"
+            out = self._mut(world, op, vs, lambda a: a.add_edges([(t, hd, l)], ignore_redundant=False))
+            h.lenient = True
+            world.stats["probe.edge_listed_twice_on_request"] += 1
+            return out
         if op.get("ignore_redundant") is False:
             if (t, hd, l) in h.E or len(edges) > 1:
                 return "skipped:redundant"
@@ -1194,6 +1241,8 @@ class Engine:
             return "wrong"
         V2, E2, S2 = predict(h, new)
         nh = self._register(world, op["new"], new, V2, E2, S2, op["op"], parent=h.id)
+        if h.lenient and op["op"] in ("d_copy", "d_recurrent", "d_shortest"):
+            nh.lenient = True
         if op["op"] in ("d_rename", "d_multiple"):
             nh.slist = h.slist          # these share the original's list object on the current tree
         elif op["op"] == "d_shortest":
@@ -1349,7 +1398,7 @@ class Engine:
         if not (h.S and all(s in h.V for s in h.S)):
             return "skipped:starts"
         labs = h.labels()
-        if labs and len({len(l) for l in labs}) != 1:
+        if labs and not uniform(labs):
             return "skipped:labels-not-uniform"
         deg = max([0] + [sum(1 for e in h.E if e[0] == v) for v in h.V])
         if deg ** k > 64 or h.big:
@@ -1393,7 +1442,7 @@ class Engine:
     # ---- queries
     def _word(self, world, op):
         w = list(op["word"])
-        if world.cfg.get("word_as") == "str" and all(len(l) == 1 for l in w):
+        if world.cfg.get("word_as") == "str" and all(isinstance(l, str) and len(l) == 1 for l in w):
             return "".join(w)
         return tuple(w)
 
@@ -1452,8 +1501,8 @@ class Engine:
         h = world.handles[op["h"]]
         if t not in h.V or hd not in h.V:
             return "skipped:absent"
-        return self._q(world, op, vs, lambda a: sorted(a.edge_labels(t, hd)),
-                       lambda h: sorted(e[2] for e in h.E if e[0] == t and e[1] == hd), "C09")
+        return self._q(world, op, vs, lambda a: sorted(a.edge_labels(t, hd), key=vkey),
+                       lambda h: sorted((e[2] for e in h.E if e[0] == t and e[1] == hd), key=vkey), "C09")
 
     def _do_q_neighbors(self, world, op, vs):
         v, d = op["v"], op["dir"]
@@ -1539,7 +1588,7 @@ class Engine:
         if not (h.S and h.S[0] in h.V):
             return "skipped:no-default-start"
         w = list(op["word"])
-        if any(len(l) != 1 for l in w):
+        if any(not isinstance(l, str) or len(l) != 1 for l in w):
             return "skipped:multichar"
         word = "".join(w)
         v, n = self._walk(h, h.S[0], w)
@@ -1559,6 +1608,8 @@ class Engine:
 
     def _enum(self, world, op, vs, fixed):
         h = world.handles[op["h"]]
+        if not all_str(h.labels()):
+            return "skipped:non-string-labels"
         start, L, states = op["start"], int(op["L"]), bool(op["states"])
         if start is None:
             if not (h.S and h.S[0] in h.V):
@@ -1684,6 +1735,8 @@ class Engine:
             return ("I1.verts", "vertices() %r / graph_dict keys %r, model %r" % (
                 sorted(verts, key=vkey)[:12], sorted(gd, key=vkey)[:12], sorted(h.V, key=vkey)[:12]))
         for name, lst in (("label", label), ("label", label2), ("out", out), ("in", inn)):
+            if h.lenient and name in ("out", "in"):
+                continue
             if len(set(lst)) != len(lst):
                 dup = [e for e, n in Counter(lst).items() if n > 1][:3]
                 return ("I1.dup." + name, "the %s view lists an edge twice: %r" % (name, dup))
@@ -1719,6 +1772,8 @@ class Engine:
         else:
             starts = Vl
         labs = h.labels()
+        if not all_str(labs):
+            return None         # enumeration concatenates labels: strings only
         single = all(len(l) == 1 for l in labs)
         as_str = single and cfg.get("word_as") == "str"
         fsa_exc = self.fsa.FSAException
